@@ -293,7 +293,7 @@ class IOOpsMixin:
         path = os.path.join(self._cwd_of(client), op["path"])
         relp = os.path.relpath(path, self.root)
         prev = self.disk.get(relp)
-        if prev is not None and prev.get("kind") == "energy":
+        if prev is not None and prev.get("kind") == "energy" and prev.get("data") is not None:
             self.probe("energy_file_overwritten")
             if prev["data"]["nv"] > d["nv"]:
                 self.probe("energy_file_overwritten_by_smaller")
